@@ -1,2 +1,11 @@
 import CssVerif.Props.C14
-#print axioms CssVerif.C14.placeholder
+#print axioms CssVerif.C14.idecode_chunks
+#print axioms CssVerif.C14.idecode_chunking_irrelevant
+#print axioms CssVerif.C14.detect_stable
+#print axioms CssVerif.C14.fix_stable
+#print axioms CssVerif.C14.final_total
+#print axioms CssVerif.C14.priority_explicit
+#print axioms CssVerif.C14.priority_bom_utf8
+#print axioms CssVerif.C14.priority_bom_utf16be
+#print axioms CssVerif.C14.priority_default
+#print axioms CssVerif.C14.priority_charset
